@@ -373,3 +373,11 @@ def rule_commit(ctx):
 
 
 RULES.append(("C14.k", "branch-commit: between the decision to perform an effect and the effect there is no way out", rule_commit))
+
+
+def rule_slot(ctx):
+    from . import slotproto
+    slotproto.rules(ctx)
+
+
+RULES.append(("C14.l", "reply slot of driver-side queries: a reply is handed over exactly when POPULATED is seen; the writer fails exactly when the reader is gone", rule_slot))
